@@ -752,6 +752,10 @@ func (e *Env) call(c *ast.CallExpr) Value {
 			r = sArr(r)
 		}
 		return Value{T: Le(e.oldNow, App("atime", "Int", r))}
+	case "ctxcancel":
+		v := e.eval(args[0])
+		x.decls.Fun("ctxcancel", []string{"Iface"}, "Ref")
+		return Value{T: App("ctxcancel", "Ref", v.T)}
 	case "ctxdone":
 		v := e.eval(args[0])
 		x.decls.Fun("ctxdone", []string{"Iface"}, "Ref")
